@@ -7,6 +7,10 @@ from .project import AnalysisBroken
 from .astu import src
 
 
+class _Break(Exception):
+    pass
+
+
 class _Return(Exception):
     def __init__(self, v):
         self.v = v
@@ -81,6 +85,35 @@ class Mini:
                 self.stmt(s['body'], env)
         elif k == 'Null':
             pass
+        elif k == 'Break':
+            raise _Break()
+        elif k == 'Switch':
+            v = self.ex(s['c'], env)
+            body = s['body']['s'] if s['body']['k'] == 'Compound' else [s['body']]
+            seq = []            # (labels or None for plain statements / 'default', statement)
+            for st in body:
+                labels = []
+                x = st
+                while x.get('k') in ('Case', 'Default'):
+                    labels.append('default' if x['k'] == 'Default' else self.ex(x['v'], env))
+                    x = x['s']
+                seq.append((labels, x))
+            start = None
+            for i, (labels, x) in enumerate(seq):
+                if any(l != 'default' and l == v for l in labels):
+                    start = i
+                    break
+            if start is None:
+                for i, (labels, x) in enumerate(seq):
+                    if 'default' in labels:
+                        start = i
+                        break
+            if start is not None:
+                try:
+                    for labels, x in seq[start:]:
+                        self.stmt(x, env)
+                except _Break:
+                    pass
         else:
             self.bad(s, 'statement')
 
